@@ -52,6 +52,7 @@ RULE = ('decoders = panqec.config.DECODERS; classes = allowed_codes (None -> all
         'Pauli errors of weight <= w (w = 2 for n <= n_w2 else 1) plus the zero syndrome. A sub-case (point, mode, '
         'dtype, syndrome) is distinct by construction and non-trivial when the syndrome is non-zero and the decode '
         'was executed (counted from the set of executed sub-cases).')
+ISOLATE = True          # every case in a freshly forked child (runner default)
 ASSUMPTIONS = [
     'size family per class as fixed in DESIGN.md §3; Color666ToricCode with L_x != L_y skipped (finding D12b)',
     'GF(2) reference algebra mc/gf2.py; a valid syndrome is the reference syndrome of an explicit Pauli error',
@@ -104,11 +105,11 @@ BOUNDS = {
                               'classes': {'Planar3DCode': {'n_w2': 12}}},
         'RotatedSweepMatchDecoder': {'n_max': 16, 'n_hard': 100, 'n_full': 0, 'n_star': 0, 'n_w2': 10,
                                      'split': True,
-                                     'classes': {'RotatedToric3DCode': {'n_max': 8, 'n_star': 4}}},
+                                     'classes': {'RotatedToric3DCode': {'n_max': 6, 'n_star': 4}}},
         'XCubeMatchingDecoder': {'n_max': 24, 'n_hard': 100, 'n_full': 0, 'n_star': 24, 'n_w2': 0, 'split': True},
-        'BeliefPropagationOSDDecoder': {'n_max': 16, 'n_hard': 100, 'n_full': 5, 'n_star': 8, 'n_w2': 12,
-                                        'split': False},
-        'MemoryBeliefPropagationDecoder': {'n_max': 8, 'n_hard': 12, 'n_full': 0, 'n_star': 5, 'n_w2': 0,
+        'BeliefPropagationOSDDecoder': {'n_max': 16, 'n_hard': 100, 'n_full': 4, 'n_star': 6, 'n_w2': 12,
+                                        'split': False, 'classes': {'Toric2DCode': {'n_star': 8}}},
+        'MemoryBeliefPropagationDecoder': {'n_max': 6, 'n_hard': 12, 'n_full': 0, 'n_star': 4, 'n_w2': 0,
                                            'split': True},
         'default': _DEF_Q,
     },
@@ -170,7 +171,9 @@ def cases(tier, seed):
                             'unknown_class': True})
                 continue
             l_max = b['l_max_2d'] if cls in F.CLASSES_2D else b['l_max_3d']
-            for size in F.sizes(cls, db['n_max'], l_max, min_count=1):
+            family = F.sizes(cls, 10 ** 9, l_max, min_count=1)       # sorted by n
+            chosen = [sz for sz in family if (F.n_qubits(cls, sz) or 0) <= db['n_max']] or family[:1]
+            for size in chosen:
                 n = F.n_qubits(cls, size) or 0
                 if n > db['n_hard']:
                     continue
@@ -187,30 +190,29 @@ def cases(tier, seed):
                     profile = 'FULL' if n <= db['n_full'] else 'STAR' if n <= db['n_star'] else 'BASE'
                     if n <= db['n_full']:
                         for nz in noises:
-                            for p in plist:
-                                points.append((nz, p, RATES, DTYPES, MODES))
+                            points.append((nz, plist, RATES, DTYPES, MODES))
                     elif n <= db['n_star']:
-                        points.append((base_noise, plist[0], [BASE_RATE], DTYPES, MODES))
-                        points.append((base_noise, plist[0], [r for r in RATES if r != BASE_RATE], ['uint8'],
+                        points.append((base_noise, plist[:1], [BASE_RATE], DTYPES, MODES))
+                        points.append((base_noise, plist[:1], [r for r in RATES if r != BASE_RATE], ['uint8'],
                                        MODES))
                         for nz in noises[1:]:
-                            points.append((nz, plist[0], [BASE_RATE], ['uint8'], MODES))
-                        for p in plist[1:]:
-                            points.append((base_noise, p, [BASE_RATE], ['uint8'], MODES))
+                            points.append((nz, plist[:1], [BASE_RATE], ['uint8'], MODES))
+                        if plist[1:]:
+                            points.append((base_noise, plist[1:], [BASE_RATE], ['uint8'], MODES))
                     else:
-                        points.append((base_noise, plist[0], [BASE_RATE], ['uint8'], MODES))
+                        points.append((base_noise, plist[:1], [BASE_RATE], ['uint8'], MODES))
                         if db.get('base_dtypes', True):
-                            points.append((base_noise, plist[0], [BASE_RATE], DTYPES[1:], ['reused-asc']))
-                    for nz, p, rates, dtypes, modes in points:
+                            points.append((base_noise, plist[:1], [BASE_RATE], DTYPES[1:], ['reused-asc']))
+                    for nz, ps, rates, dtypes, modes in points:
                         if db['split']:
-                            parts = [([dt], [mo]) for dt in dtypes for mo in modes]
+                            parts = [([p], [dt], [mo]) for p in ps for dt in dtypes for mo in modes]
                         else:
-                            parts = [(dtypes, modes)]
-                        for dts, ms in parts:
+                            parts = [(ps, dtypes, modes)]
+                        for pl, dts, ms in parts:
                             out.append({'decoder': dname, 'cfg': cfg, 'n': n, 'profile': profile,
-                                        'noise': nz, 'params': p, 'rates': list(rates),
-                                        'dtypes': list(dts), 'modes': list(ms), 'w': w,
-                                        'rank_all': b['rank_all']})
+                                        'noise': nz, 'params_list': [dict(p) for p in pl],
+                                        'rates': list(rates), 'dtypes': list(dts), 'modes': list(ms),
+                                        'w': w, 'rank_all': b['rank_all']})
     # simplest first: by qubit number; within one qubit number the decoders take turns (the i-th case of every
     # decoder before the (i+1)-th of any), each decoder's cases in construction order
     turn = {}
@@ -295,7 +297,7 @@ def _key(case, kind, **kw):
          'noise_direction': nz[0],
          'noise_deformation': nz[1][0] if nz[1] else None,
          'noise_axis': (nz[1][1].get('deformation_axis', 'default') if nz[1] else None)}
-    for pk, pv in sorted((case.get('params') or {}).items()):
+    for pk, pv in sorted((kw.pop('params', None) or {}).items()):
         k[pk] = pv
     k.update(kw)
     return k
@@ -364,7 +366,6 @@ def eval_case(case):
         return res
     cfg = case['cfg']
     complete = dname in COMPLETE
-    params = dict(case['params'])
     nz = case['noise']
 
     # ---- the code object and the reference view of it
@@ -401,6 +402,8 @@ def eval_case(case):
     executed = set()
     outcomes = set()
 
+    cur = {'params': {}}
+
     def report(kind, mode, dtype, rate, idx, detail, **kw):
         bump('viol_' + kind)
         bump('viol_%s_%s' % (kind, dname))
@@ -408,7 +411,7 @@ def eval_case(case):
         if fk in found:
             return
         key = _key(case, kind, mode=mode, dtype=dtype, rate=rate, syndrome_index=idx,
-                   syndrome_set=skind, **kw)
+                   syndrome_set=skind, params=cur['params'], **kw)
         d = dict(detail or {})
         if idx is not None:
             s_int, e_int = space[idx]
@@ -421,7 +424,7 @@ def eval_case(case):
     def construct(model, rate, mode):
         """-> decoder or None (violation recorded)"""
         try:
-            return D(code, model, rate, **params)
+            return D(code, model, rate, **cur['params'])
         except Exception as exc:
             report('construction-raises', mode, None, rate, None,
                    {'message': str(exc)[:200]}, exc=type(exc).__name__, where=_panqec_where(exc))
@@ -434,7 +437,7 @@ def eval_case(case):
         s_int = space[idx][0]
         arg = _convert(native, dtype)
         res['evals'] += 1
-        executed.add((rate, dtype, mode, s_int))
+        executed.add((cur['idx'], rate, dtype, mode, s_int))
         try:
             corr = dec.decode(arg)
         except Exception as exc:
@@ -457,30 +460,33 @@ def eval_case(case):
         else:
             outcomes.add('%s|ok|w%d' % (dname, gf2.weight(c, n)))
 
-    for rate in case['rates']:
-        model = make_model()
-        probe = construct(model, rate, 'construct')
-        res['evals'] += 1
-        if probe is None:
-            outcomes.add('%s|construction-raises' % dname)
-            continue
-        for dtype in case['dtypes']:
-            for mode in case['modes']:
-                if mode == 'fresh':
-                    for idx in range(len(space)):
+    for pi, params in enumerate(case['params_list']):
+        cur['params'] = dict(params)
+        cur['idx'] = pi
+        for rate in case['rates']:
+            model = make_model()
+            probe = construct(model, rate, 'construct')
+            res['evals'] += 1
+            if probe is None:
+                outcomes.add('%s|construction-raises' % dname)
+                continue
+            for dtype in case['dtypes']:
+                for mode in case['modes']:
+                    if mode == 'fresh':
+                        for idx in range(len(space)):
+                            dec = construct(model, rate, mode)
+                            if dec is None:
+                                break
+                            one(dec, mode, dtype, rate, idx)
+                    else:
                         dec = construct(model, rate, mode)
                         if dec is None:
-                            break
-                        one(dec, mode, dtype, rate, idx)
-                else:
-                    dec = construct(model, rate, mode)
-                    if dec is None:
-                        continue
-                    rng = range(len(space)) if mode == 'reused-asc' else range(len(space) - 1, -1, -1)
-                    for idx in rng:
-                        one(dec, mode, dtype, rate, idx)
+                            continue
+                        order = range(len(space)) if mode == 'reused-asc' else range(len(space) - 1, -1, -1)
+                        for idx in order:
+                            one(dec, mode, dtype, rate, idx)
 
-    res['nontrivial'] = sum(1 for t in executed if t[3] != 0)
+    res['nontrivial'] = sum(1 for t in executed if t[4] != 0)
     # representatives first: one per (kind, exc), then one per (kind, exc, mode), then the dtype variants --
     # each group in order of discovery (= simplest first)
     viols, taken = [], set()
@@ -500,7 +506,7 @@ def eval_case(case):
     res['outcomes'] = sorted(outcomes)[:50]
     res['samples'] = [{'decoder': dname, 'config': F.cfg_label(cfg), 'n': n, 'rank': r,
                        'syndrome_set': skind, 'syndromes': len(space), 'noise': nz,
-                       'params': params, 'rates': case['rates'], 'dtypes': case['dtypes'],
+                       'params': case['params_list'], 'rates': case['rates'], 'dtypes': case['dtypes'],
                        'modes': case['modes']}]
     bump('decoder_cases_' + dname)
     return res
